@@ -766,6 +766,8 @@ func TestC09(t *testing.T) {
 		}
 		return nil
 	})
+	// engine 3: receivers racing for the last buffered values of a closed channel (real threads)
+	c09DrainRace(cfg, rec, pool)
 	// engine 2: script-level stress with spawn under the race detector
 	c09Stress(cfg, rec, dl)
 }
